@@ -124,7 +124,9 @@ type Exec struct {
 	nowNs      *Term // time.Now() in ns (64-bit)
 	pool       poolState
 	emitted    []Value // datagrams captured by native output callback
-	sched      []schedCall
+	schedCalls []schedCall
+	sched      *scheduler
+	vtimers    map[*Value]*vtimer
 	gos        []goCall
 
 	// write-set journal
@@ -137,6 +139,9 @@ type Exec struct {
 	picks     map[string]uint64
 	qsites    bool
 	pcDirty   bool // assumptions were added without a feasibility check
+	model     *Model // a model of the current path condition (nil if none is known)
+	mcache    map[*Term]uint64
+	noModel   bool
 	lastModel *Model
 	minfo     map[*ssa.Function]*mergeInfo
 	noMerge   bool
@@ -160,6 +165,8 @@ type lockState struct {
 	readers int
 	owner   int
 }
+
+var initWhitelist = map[string]bool{"io": true}
 
 type interceptFn func(ex *Exec, fr *Frame, args []Value, site ssa.Instruction) Value
 
@@ -191,6 +198,11 @@ func (ex *Exec) assume(c *Term) {
 		return
 	}
 	ex.pc = append(ex.pc, c)
+	if ex.model != nil {
+		if v, ok := ex.evalModel(c); !ok || v == 0 {
+			ex.model = nil
+		}
+	}
 	ex.ts.Learn(c)
 	p := ex.sols[0]
 	if p.gen == ex.gens[0] {
@@ -262,6 +274,48 @@ func (ex *Exec) ensureFeasible() {
 	}
 }
 
+// evalModel evaluates a term under the cached model of the path condition.
+func (ex *Exec) evalModel(t *Term) (uint64, bool) {
+	if ex.model == nil || t.hasUF {
+		return 0, false
+	}
+	return ex.ts.Eval(t, ex.model, ex.mcache)
+}
+
+// fetchModel reads the values of every variable the path condition mentions (after a sat
+// answer with keep=true) and pops the solver scope.
+func (ex *Exec) fetchModel(extra *Term) {
+	seen := map[*Term]bool{}
+	var vars []*Term
+	var walk func(t *Term)
+	walk = func(t *Term) {
+		if seen[t] {
+			return
+		}
+		seen[t] = true
+		if t.op == OpVar {
+			vars = append(vars, t)
+		}
+		for _, a := range t.args {
+			walk(a)
+		}
+	}
+	for _, c := range ex.pc {
+		walk(c)
+	}
+	if extra != nil {
+		walk(extra)
+	}
+	vals := ex.sol.GetValues(vars)
+	ex.sol.Pop()
+	m := &Model{vals: map[string]uint64{}}
+	for i, v := range vars {
+		m.vals[v.name] = vals[i]
+	}
+	ex.model, ex.mcache = m, map[*Term]uint64{}
+	ex.counters["model-fetch"]++
+}
+
 func (ex *Exec) replaying() bool { return ex.dpos < len(ex.prefix) }
 
 func (ex *Exec) pushFork(d Decision) {
@@ -273,8 +327,8 @@ func (ex *Exec) pushFork(d Decision) {
 
 // branch decides a symbolic boolean; forks when both sides are feasible.
 func (ex *Exec) branch(c *Term) bool {
-	if k, ok := ex.ts.known(c); ok && !ex.replaying() {
-		c = k
+	if k, ok := ex.ts.known(c); ok {
+		c = k // identical in the original run and in every replay of its prefix
 	}
 	if c.IsConst() {
 		return c.IsTrue()
@@ -292,6 +346,44 @@ func (ex *Exec) branch(c *Term) bool {
 	}
 	ex.dpos++
 	ex.ensureFeasible()
+	if !ex.noModel && !c.hasUF {
+		// model-directed: the side the cached model satisfies is feasible without a query
+		if ex.model == nil {
+			switch ex.check(ex.ts.True, true) {
+			case Sat:
+				ex.fetchModel(c)
+			case Unsat:
+				panic(pathEnd{kind: endInfeasible, msg: "path condition"})
+			}
+		}
+		if v, ok := ex.evalModel(c); ok {
+			side := v != 0
+			other := c
+			if side {
+				other = ex.ts.BNot(c)
+			}
+			ex.counters["model-branch"]++
+			vo := ex.check(other, false)
+			if vo == Unknown {
+				ex.incon = append(ex.incon, "branch feasibility unknown (kept): "+ex.where())
+			}
+			ch := 0
+			if side {
+				ch = 1
+			}
+			if vo != Unsat {
+				ex.counters["fork@"+ex.where()]++
+				ex.pushFork(Decision{Choice: 1 - ch, Kind: 'b'})
+			}
+			ex.trace = append(ex.trace, Decision{Choice: ch, Kind: 'b'})
+			if side {
+				ex.assume(c)
+			} else {
+				ex.assume(ex.ts.BNot(c))
+			}
+			return side
+		}
+	}
 	vt := ex.check(c, false)
 	var vf Verdict
 	if vt == Unsat {
@@ -681,7 +773,10 @@ func (ex *Exec) call(caller *Frame, fn *ssa.Function, args []Value, env []Value,
 		panic(pathEnd{kind: endUnsupported, msg: "no body for " + fn.String() + " called from " + ex.where()})
 	}
 	if fn.Name() == "init" && fn.Pkg != nil && fn.Pkg != ex.pkg && fn.Synthetic != "" {
-		return nil // other packages' initialisers are not run
+		// other packages' initialisers are not run, except a few that only create error values
+		if !initWhitelist[fn.Pkg.Pkg.Path()] {
+			return nil
+		}
 	}
 	ex.depth++
 	if ex.depth > 200 {
